@@ -54,7 +54,7 @@ def run(tier, seed, replay=None):
                               "case %s damage base=%s main=c.jbk file=%s op=%s%s\nend\n# base container: %s\n# %s\n" % (
                                   c["id"], o["dir"], c["file"], c["op"], " mt=4" if c.get("mt") else "", o["base"], bad))
             elif not (opk == "xor" and c["op"].endswith(D.KERNEL) and any("PANIC" in l for l in c["debug"]["lines"])) \
-                    and not D.model_agrees(c["debug"]["lines"], c["model"]):
+                    and not o["base"].get("nomodel") and not D.model_agrees(c["debug"]["lines"], c["model"]):
                 dis += 1
                 if dis <= 3:
                     res.violation("model/implementation correspondence broken on damaged file (%s %s of base %s)" % (c["file"], c["op"], bid),
